@@ -123,6 +123,16 @@ func nextSetArguments(cmd string, args Arguments) (string, string, error) {
 	return key, val, err
 }
 
+// newExpireDuration converts a number of the specified unit into a duration.
+// A number which does not fit into a duration is out of range: converted, it
+// would wrap around into a negative (already expired) or arbitrary expiry.
+func newExpireDuration(cmd string, name string, n int, unit time.Duration) (time.Duration, error) {
+	if int64(n) > math.MaxInt64/int64(unit) || int64(n) < math.MinInt64/int64(unit) {
+		return 0, newInvalidArgumentError(cmd, name, ErrInvalidExpireTime)
+	}
+	return time.Duration(n) * unit, nil
+}
+
 func nextSetExArguments(cmd string, args Arguments) (string, int, string, error) {
 	key, err := args.NextString()
 	if err != nil {
@@ -190,9 +200,15 @@ func nextSetOptionArguments(cmd string, args Arguments) (SetOption, error) {
 			}
 			switch argStr {
 			case "EX":
-				opt.EX = time.Duration(argInt) * time.Second
+				opt.EX, err = newExpireDuration(cmd, argStr, argInt, time.Second)
+				if err != nil {
+					return opt, err
+				}
 			case "PX":
-				opt.PX = time.Duration(argInt) * time.Millisecond
+				opt.PX, err = newExpireDuration(cmd, argStr, argInt, time.Millisecond)
+				if err != nil {
+					return opt, err
+				}
 			case "EXAT":
 				opt.EXAT = time.Unix(int64(argInt), 0)
 			case "PXAT":
